@@ -24,9 +24,106 @@ static mtbl_res wrap_compress(int algo, const char *level, const uint8_t *in, si
 	return mtbl_compress_level(algo, atoi(level), in, n, out, on);
 }
 
+
+/* run mtbl_compress() / mtbl_decompress() in a child process with the library interposers reporting into a pipe.
+ * which = 'c': args algo level input ; which = 'd': args algo stored.  Side lines: the "#lib" facts.
+ * reply: ok <hex> | fail | abort | asan | crash:<sig> */
+extern int vf_lib_fd; void vf_lib_levels(void);
+static int cz_child_call(char which, int algo, const char *level, const uint8_t *in, size_t n)
+{
+	int pfd[2]; if (pipe(pfd)) return -1;
+	fflush(stdout);
+	pid_t pid = fork();
+	if (pid == 0) {
+		close(pfd[0]);
+		int devnull = open("/dev/null", O_WRONLY); if (devnull >= 0) dup2(devnull, 2);
+		vf_lib_fd = pfd[1];
+		if (which == 'c' && algo == MTBL_COMPRESSION_ZSTD) vf_lib_levels();
+		uint8_t *out = NULL; size_t on = 0;
+		mtbl_res r = which == 'c' ? wrap_compress(algo, level, in, n, &out, &on) : mtbl_decompress(algo, in, n, &out, &on);
+		vf_lib_fd = -1;
+		FILE *p = fdopen(pfd[1], "w");
+		if (r != mtbl_res_success) fputs("=fail\n", p);
+		else { fputs("=ok ", p); puthex(p, out, on); fputc('\n', p); }
+		fflush(p);
+		_exit(10);
+	}
+	close(pfd[1]);
+	FILE *rp = fdopen(pfd[0], "r");
+	char *line = NULL; size_t cap = 0; ssize_t k; char *reply = NULL;
+	while ((k = getline(&line, &cap, rp)) > 0) {
+		if (line[0] == '#') fputs(line, stdout);
+		else if (line[0] == '=') { free(reply); reply = strdup(line + 1); }
+	}
+	free(line); fclose(rp);
+	int st = 0; waitpid(pid, &st, 0);
+	if (WIFEXITED(st) && WEXITSTATUS(st) == 10 && reply) fputs(reply, stdout);
+	else if (WIFEXITED(st) && WEXITSTATUS(st) == 99) puts("asan");
+	else if (WIFSIGNALED(st) && WTERMSIG(st) == SIGABRT) puts("abort");
+	else if (WIFSIGNALED(st)) printf("crash:%d\n", WTERMSIG(st));
+	else printf("exit:%d\n", WEXITSTATUS(st));
+	free(reply);
+	return 0;
+}
+
+/* deterministic test buffers: kind in {zero, ff, period<k>, text, random, mixed, ramp} */
+static uint64_t gz_s;
+static uint64_t gz_rnd(void) { gz_s += 0x9e3779b97f4a7c15ull; uint64_t z = gz_s; z = (z ^ (z >> 30)) * 0xbf58476d1ce4e5b9ull; z = (z ^ (z >> 27)) * 0x94d049bb133111ebull; return z ^ (z >> 31); }
+static void cz_fill(uint8_t *b, size_t n, const char *kind, uint64_t seed)
+{
+	gz_s = seed * 1000003 + 17;
+	if (!strcmp(kind, "zero")) memset(b, 0, n);
+	else if (!strcmp(kind, "ff")) memset(b, 0xff, n);
+	else if (!strncmp(kind, "period", 6)) { int p = atoi(kind + 6); if (p < 1) p = 1; for (size_t i = 0; i < n; i++) b[i] = (uint8_t)(0x41 + (i % p) * 7); }
+	else if (!strcmp(kind, "text")) { static const char *w[] = {"the ", "quick ", "brown ", "fox ", "mtbl ", "key ", "value ", "0123 "}; size_t i = 0; while (i < n) { const char *x = w[gz_rnd() % 8]; for (; *x && i < n; x++) b[i++] = *x; } }
+	else if (!strcmp(kind, "random")) for (size_t i = 0; i < n; i++) b[i] = (uint8_t)gz_rnd();
+	else if (!strcmp(kind, "ramp")) for (size_t i = 0; i < n; i++) b[i] = (uint8_t)i;
+	else { size_t i = 0; while (i < n) { size_t run = 1 + gz_rnd() % 5000; int mode = gz_rnd() % 3; uint8_t c = (uint8_t)gz_rnd(); for (; run && i < n; run--, i++) b[i] = mode == 0 ? c : mode == 1 ? (uint8_t)gz_rnd() : (uint8_t)(i & 7); } }
+}
+
 int ops_misc(char **args, int na)
 {
 	const char *op = args[0];
+	if (!strcmp(op, "cz.c") && na == 4) {
+		uint8_t *in; size_t n; if (unhex(args[3], &in, &n)) return -1;
+		int r = cz_child_call('c', atoi(args[1]), args[2], in, n); free(in); return r;
+	}
+	if (!strcmp(op, "cz.d") && na == 3) {
+		uint8_t *in; size_t n; if (unhex(args[2], &in, &n)) return -1;
+		int r = cz_child_call('d', atoi(args[1]), NULL, in, n); free(in); return r;
+	}
+	if (!strcmp(op, "cz.gen") && na == 4) {
+		/* cz.gen <kind> <n> <seed> -> buf <hex> : deterministic buffer (real-only; its hex is bound to a variable) */
+		size_t n = strtoul(args[2], NULL, 10); uint8_t *b = malloc(n + 1);
+		cz_fill(b, n, args[1], strtoull(args[3], NULL, 10));
+		printf("buf "); puthex(stdout, b, n); putchar('\n'); free(b); return 0;
+	}
+	if (!strcmp(op, "cz.big") && na == 6) {
+		/* cz.big <algo> <level> <kind> <n> <seed>: round trip of a large generated buffer entirely on the real side
+		 * (no model run: megabyte inputs are outside what the line protocol carries comfortably).
+		 * reply: ok <stored length> | cfail | dfail | mismatch | abort | asan | crash */
+		size_t n = strtoul(args[4], NULL, 10); uint8_t *in = malloc(n + 1); cz_fill(in, n, args[3], strtoull(args[5], NULL, 10));
+		fflush(stdout);
+		pid_t pid = fork();
+		if (pid == 0) {
+			int devnull = open("/dev/null", O_WRONLY); if (devnull >= 0) dup2(devnull, 2);
+			uint8_t *out = NULL, *back = NULL; size_t on = 0, bn = 0;
+			if (wrap_compress(atoi(args[1]), args[2], in, n, &out, &on) != mtbl_res_success) _exit(11);
+			if (mtbl_decompress(atoi(args[1]), out, on, &back, &bn) != mtbl_res_success) _exit(12);
+			if (bn != n || (n && memcmp(back, in, n))) _exit(13);
+			_exit(10);
+		}
+		int st = 0; waitpid(pid, &st, 0); free(in);
+		if (WIFEXITED(st) && WEXITSTATUS(st) == 10) puts("ok");
+		else if (WIFEXITED(st) && WEXITSTATUS(st) == 11) puts("cfail");
+		else if (WIFEXITED(st) && WEXITSTATUS(st) == 12) puts("dfail");
+		else if (WIFEXITED(st) && WEXITSTATUS(st) == 13) puts("mismatch");
+		else if (WIFEXITED(st) && WEXITSTATUS(st) == 99) puts("asan");
+		else if (WIFSIGNALED(st) && WTERMSIG(st) == SIGABRT) puts("abort");
+		else if (WIFSIGNALED(st)) printf("crash:%d\n", WTERMSIG(st));
+		else printf("exit:%d\n", WEXITSTATUS(st));
+		return 0;
+	}
 	if (!strcmp(op, "cz.raw") && na == 4) {
 		uint8_t *in; size_t n; if (unhex(args[3], &in, &n)) return -1;
 		uint8_t *out = NULL; size_t on = 0;
